@@ -153,7 +153,7 @@ func canonObs(e cadence.Event) string {
 			for _, x := range a.Values {
 				parts = append(parts, Canon(x))
 			}
-			sort.Strings(parts)
+			naturalSort(parts)
 			return string(tag) + "=[" + strings.Join(parts, ", ") + "]"
 		}
 	}
@@ -329,4 +329,14 @@ func conforms(v cadence.Value, t cadence.Type) string {
 		}
 	}
 	return ""
+}
+
+// naturalSort orders canonical element strings by (length, bytes): numbers of one type sort numerically.
+func naturalSort(parts []string) {
+	sort.Slice(parts, func(i, j int) bool {
+		if len(parts[i]) != len(parts[j]) {
+			return len(parts[i]) < len(parts[j])
+		}
+		return parts[i] < parts[j]
+	})
 }
